@@ -21,6 +21,12 @@ fn base_req(method: &str, path: &str, authority: &str) -> Vec<Hdr> {
 fn op_h2(ml: u32, mf: u32, es: bool, scheme: &str, cx: Option<&Cx>, hs: &[Hdr]) -> String {
     format!("h2 {ml} {mf} {} {} {} {}", es as u8, hex(scheme.as_bytes()), cx.map(|c| c.word()).unwrap_or_else(|| "-".into()), hl(hs))
 }
+fn op_h2_buf(ml: u32, mf: u32, es: bool, scheme: &str, cx: Option<&Cx>, hs: &[Hdr], buf: Option<usize>) -> String {
+    match buf {
+        Some(b) => format!("{} {b}", op_h2(ml, mf, es, scheme, cx, hs)),
+        None => op_h2(ml, mf, es, scheme, cx, hs),
+    }
+}
 fn op_body(chunks: &[Vec<u8>], trailers: Option<&[Hdr]>) -> String {
     format!("body {} {}", bl(chunks), trailers.map(hl).unwrap_or_else(|| "~".into()))
 }
@@ -217,6 +223,8 @@ struct H2Case {
     mf: u32,
     /// declared content-length, when the generator put a consistent one
     cl: Option<usize>,
+    /// stream buffer size (pool buffer_size); None = large
+    buf: Option<usize>,
 }
 
 fn gen_h2_valid(rng: &mut Rng) -> H2Case {
@@ -261,7 +269,7 @@ fn gen_h2_valid(rng: &mut Rng) -> H2Case {
         regular.insert(at, (b"content-length".to_vec(), n.to_string().into_bytes()));
     }
     pseudo.extend(regular);
-    H2Case { hs: pseudo, es, ml: 65536, mf: 200, cl }
+    H2Case { hs: pseudo, es, ml: 65536, mf: 200, cl, buf: None }
 }
 
 fn bad_byte(rng: &mut Rng) -> u8 {
@@ -272,7 +280,7 @@ fn mutate_h2(rng: &mut Rng, c: &mut H2Case) -> &'static str {
     let n = c.hs.len();
     let ridx = |rng: &mut Rng| rng.below(n as u64) as usize;
     let find = |c: &H2Case, name: &[u8]| c.hs.iter().position(|(k, _)| k == name);
-    match rng.below(40) {
+    match rng.below(42) {
         0 => {
             let i = ridx(rng);
             if let Some(b) = c.hs[i].0.iter_mut().find(|b| b.is_ascii_lowercase()) {
@@ -516,6 +524,29 @@ fn mutate_h2(rng: &mut Rng, c: &mut H2Case) -> &'static str {
             c.hs.push(h("x-long", &"v".repeat(rng.range(100, 3000) as usize)));
             "long-value"
         }
+        39 => {
+            // the stream buffer is smaller than what the header list needs (or just enough)
+            let need: usize = c.hs.iter().map(|(k, v)| k.len() + v.len()).sum();
+            c.buf = Some(match rng.below(4) {
+                0 => need,
+                1 => need.saturating_sub(rng.range(1, 12) as usize).max(1),
+                2 => rng.range(8, 64) as usize,
+                _ => need / 2 + 1,
+            });
+            // the pool rounds a buffer up to a multiple of 8: ask for what will really be there
+            c.buf = c.buf.map(|b| b.div_ceil(8) * 8);
+            if rng.chance(1, 2) {
+                c.hs.push(h("cookie", "a=1; bb=22; ccc=333; dddd=4444"));
+            }
+            "small-buffer"
+        }
+        40 => {
+            // a header block that needs CONTINUATION frames toward an HTTP/2 backend
+            for i in 0..rng.range(3, 5) {
+                c.hs.push(h(format!("x-big-{i}"), "w".repeat(rng.range(5000, 7000) as usize)));
+            }
+            "continuation-sized"
+        }
         _ => {
             let i = ridx(rng);
             c.hs.swap(i, n - 1);
@@ -603,7 +634,7 @@ fn gen_h2_case(rng: &mut Rng, cx: Option<&Cx>, c13: bool) -> Vec<String> {
         }
     }
     let scheme = if rng.chance(1, 2) { "https" } else { "http" };
-    let mut ops = vec!["new".to_string(), op_h2(c.ml, c.mf, c.es, scheme, cx, &c.hs)];
+    let mut ops = vec!["new".to_string(), op_h2_buf(c.ml, c.mf, c.es, scheme, cx, &c.hs, c.buf)];
     // a declared length the generator cannot honour (h2.rs resets such a stream at END_STREAM; that
     // reconciliation is not callable in-process): no DATA is sent
     let unknown_cl = c.cl.is_none() && c.hs.iter().any(|(k, _)| k == b"content-length");
